@@ -3,7 +3,7 @@
 import json
 
 claimed = {
- "C06": ("DESIGN.md §4 C06", "Cursor/Selection representation invariants and range postconditions of the real methods of internal/core (Pos, CheckCommand, movers), proved for all states by SMT from go/ssa-generated verification conditions",
+ "C06": ("DESIGN.md §4 C06", "Cursor/Selection representation invariants and range postconditions of the real methods of internal/core (Pos, CheckCommand, movers), proved for all states by SMT from go/ssa-generated verification conditions; the movement commands forward-word / backward-word / backward-char / beginning-of-line / end-of-line and insertAutosuggestPartial proved to leave the buffer text unchanged (autosuggestion off or cursor not at the end)",
          "Line.Len == len(*l) trusted (utf8 round trip); main-loop composition A-LOOP; int arithmetic mathematical"),
  "C12": ("DESIGN.md §4 C12", "panic-freedom and loop termination of every function of the inputrc parser (parse.go, New/Parse) for arbitrary rune sequences, plus the $include depth cap; each index/slice/nil/assert site is an obligation",
          "bufio.Scanner, strings.*, unicode.*, strconv.Atoi contracts assumed; Handler methods assumed total; recursion through $include assumed bounded by the proved depth-cap postcondition"),
@@ -15,8 +15,8 @@ claimed = {
          "emacs kills under the hypothesis 'no vi visual selection'; counts other than 1 not covered for vi-delete-char/put (NUL padding observed); word kills (kill-word etc.) only for panic-freedom; Line.Len == len trusted"),
  "C14": ("DESIGN.md §4 C14", "insertCandidate / acceptCandidate / cancelCompletedLine / Cancel proved against 'only the word being completed is rewritten': completed (or real) line == line[:p-|prefix|] ++ value ++ line[p:], the real line untouched while a candidate is only virtually inserted, interrupt restores line and cursor",
          "hypotheses stated as preconditions: FilterPrefix has run (H-FILTER), cursor in range; candidate generation/filter/sort not covered; 2 known findings (byte vs rune prefix length)"),
- "C15": ("DESIGN.md §4 C15", "plain (non-aliased) grids: createRow/createGrid/initCompletionsGrid establish the grid invariant and flatten(rows) == candidate list for every terminal width (real ceiling, nonlinear row arithmetic); moveSelector(+-1,0) is the immediate successor / predecessor in list order and reports done exactly at the last / first cell; firstCell/lastCell",
-         "aliased grids (shared descriptions), findFirstCandidate and the group-cycling recursion are not under contract (stated, not bounded-checked); float64 treated as mathematical real in math.Ceil"),
+ "C15": ("DESIGN.md §4 C15", "plain (non-aliased) grids: createRow/createGrid/initCompletionsGrid establish the grid invariant and flatten(rows) == candidate list for every terminal width (real ceiling, nonlinear row arithmetic); moveSelector(+-1,0) is the immediate successor / predecessor in list order and reports done exactly at the last / first cell; firstCell/lastCell; aliased grids (shared descriptions): wrapExcessAliases keeps every candidate in order (flat(rows) == flat(grid)), every row fits in the kept columns (the only ones the selector visits), at least one column is kept and the wrapping loop terminates",
+         "the column-by-column walk of an aliased grid (findFirstCandidate) and the group-cycling recursion are not under contract (stated, not bounded-checked); createDescribedRows only for frame, termination and panic-freedom; float64 treated as mathematical real in math.Ceil; 1 defect fixed (zero kept columns: endless wrapping loop)"),
  "C17": ("DESIGN.md §4 C17", "vi-delete-to and vi-yank-to stated against one pair of spec functions opB/opE (= Selection.Pos() after adjustSelectionPending): delete removes line[b:e] and stores it, yank stores the same line[b:e] and leaves the buffer unchanged; dd/yy likewise against lineB/lineE with the same newline rule",
          "viCommandMode and Display.ResetHelpers trusted (completion/hint code); only the operator bodies are proved, the pending-operator hand-off in the main loop is A-LOOP; index safety of the other branches assumed (assume_nopanic)"),
  "C08": ("DESIGN.md §4 C08", "Sources.Write proved against the statement for every bound source in any map order (loop invariant over the ghost key sequence): never when replaying or blank, at most one appended entry equal up to white space, exactly one unless the source is full or the line duplicates its last entry; Accept records only when err == nil; LineAccepted returns the accepted buffer; memory source checked against the Source interface contract",
@@ -31,6 +31,8 @@ claimed = {
          "the induction over the typed string is the main loop (A-LOOP); bind-table hypothesis H-TABLE (the byte is bound to self-insert and starts no longer sequence) is a precondition, not checked against DefaultBinds(); pair characters excluded (autopairs); uniseg.StringWidth assumed 1 on printable ASCII; 1 known finding: all non-ASCII input is dropped by the byte dispatcher"),
  "C18": ("DESIGN.md §4 C18", "RecordKeys appends exactly the matched keys (skipping the key that started recording), StopRecord stores EscapeMacro of the recorded keys under the register and as last macro, RunLastMacro and RunMacro feed runes(Unescape(stored)) in order, PopKey/PeekKey pop fed keys first and in order; with the C19 lemma Unescape(EscapeMacro(k)) == k per key this is replay == retype for ASCII keys",
          "that every key typed while recording passes through RecordKeys once is the main loop (A-LOOP); Unescape/EscapeMacro named by uninterpreted functions here (their per-token behaviour is C19); 1 known finding: runes >= 0x80 are replayed as one truncated byte; ESC-timing dependence of replayed vi macros (one chunk) not covered"),
+ "C05": ("DESIGN.md §4 C05", "chunk independence of the sequential key consumers through a ghost input stream whose read returns an arbitrary chunk length (uninterpreted chunklen): readInputFiltered returns exactly the next chunklen bytes; WaitAvailableKeys never loses, duplicates or reorders a byte (buf ++ unread stream is invariant) and reads nothing while keys are pending; dispatchKeys/MatchMain/MatchLocal/PopKey consume the stack in order (shared with C03); ReadKey stated against 'first unread character' (known findings)",
+         "ESC timing and the cursor-position-report hand-off between goroutines are not decided (channels abstracted; extractCursorPos trusted under the hypothesis that no report is in flight); convert-meta conversion of a chunk excluded (cfg == nil); 4 known findings (ReadKey ignores buffered keys / drops the rest of its chunk; non-EOF read error busy-loops)"),
 }
 not_applicable = {
  "C04": "needs a VT100 cell-grid interpreter of the emitted byte stream as oracle; contracts on the repository's functions cannot state what a terminal shows (DESIGN.md §4 C04)",
@@ -38,7 +40,6 @@ not_applicable = {
 }
 pending = {
  "C01": "not yet claimed: contracts for the command layer are still being written (DESIGN.md §7 build order)",
- "C05": "not yet claimed: needs the ghost input stream layer (DESIGN.md §7 step 3)",
  "C10": "not yet claimed: assumed-library layer not reached yet (DESIGN.md §4 C10)",
  "C11": "not yet claimed: ghost termios / defers on the panic edge not yet built",
 }
